@@ -8,6 +8,8 @@ U64 = (1 << 64) - 1
 BR = {0: (0, 48), 1: (48, 64), 2: (0, 64)}
 POISON = [0x2b, 0x2d, 0x2f, 0x49, 0x4b, 0x4d, 0x4f, 0x6b, 0x8b, 0x9b, 0x9f, 0xa5, 0xbb, 0xcc, 0xcd, 0xce, 0xdb, 0xe5]
 INSTRS = ["-", "-", "-", "8a0424", "488b00", "ff20", "488b4308", "c3", "90", "ffff"]
+# mov al,[rsp] / mov rax,[rax] / jmp [rax] / mov rax,[rbx+8] / ret / nop / (invalid) / no bytes: ids of the memory-operand registers
+P_INSTR_REGS = {"8a0424": {7}, "488b00": {0}, "ff20": {0}, "488b4308": {3}, "c3": set(), "90": set(), "ffff": set(), "-": set()}
 
 
 # ---- amd64 instruction encoder for Q cases (memory-operand forms; the decoder under test is yaxpeax) ----
@@ -794,6 +796,7 @@ class C19(PropBase):
         else:
             ctx = [int(x) for x in t[i + 1:i + 18]]
             i += 18
+        instr_regs = P_INSTR_REGS.get(t[i])     # base / index registers of the planted instruction's memory operands
         i += 1  # instr
         kind, n = int(t[i]), int(t[i + 1])
         regs = [(int(t[i + 2 + 3 * k]), int(t[i + 3 + 3 * k]), int(t[i + 4 + 3 * k])) for k in range(n)]
@@ -809,7 +812,8 @@ class C19(PropBase):
             br = (0, 48)
         if ctx:
             for k, v in enumerate(ctx):
-                examined[k] = v
+                if instr_regs is None or k in instr_regs:
+                    examined[k] = v
         return self.judge(flips, examined, br, kind, regs, op, reg_fixed=None)
 
     def oracle_q(self, t, ans):
